@@ -3,6 +3,16 @@ import StsModel.Model.Ranges
 import StsModel.Model.LogFmt
 import StsModel.Model.StageSem
 import StsModel.Lemmas.StageLogged
+import StsModel.Lemmas.StageLoggedHash
+import StsModel.Lemmas.StageFin
+import StsModel.Lemmas.StageOnce
+import StsModel.Lemmas.StageIntegrity
+import StsModel.Lemmas.StageRec
+import StsModel.Props.C01
 import StsModel.Props.C04
+import StsModel.Props.C05
+import StsModel.Props.C06
 import StsModel.Props.C09
+import StsModel.Props.C09Stage
 import StsModel.Props.C18
+import StsModel.Props.C20
